@@ -982,7 +982,64 @@ pub struct Plan {
     pub bound: usize,
 }
 
+/// Connections do not share anything (round 7: a process-wide / thread-local cache that also carries the
+/// half-parsed response of an interrupted receive). A two-connection history, deterministic and judged by the
+/// property's own oracle: a reference session B is executed first thing in the process; then a connection A
+/// that dies in the middle of a reply (after a complete line of an idle reply / of a command's reply / of a
+/// list's reply); then B again. B must be observed exactly as before, and must satisfy the oracle.
+/// The explorer re-executes prefixes and relies on executions being independent; when this probe fails the
+/// exploration is not run (it would only trip over its own determinism check) and the probe's verdict stands.
+pub fn independence_probe(id: &str, oracle: &Oracle) -> Violations {
+    let mut viol = Violations::default();
+    let b = s1(Tier::Quick);
+    let run_b = || run_once(&b, &mut NameChooser { names: vec![], cursor: 0, repeats: 0 }).unwrap_or_else(|e| machinery_error(&format!("independence probe: reference session: {e}")));
+    let b0 = run_b();
+    let mut a = micro_fault(Tier::Quick);
+    a.split_menu = SplitMenu::Lines;
+    let mut a_list = s4(Tier::Quick);
+    a_list.split_menu = SplitMenu::Lines;
+    let scripts: Vec<(&Scenario, &str, Vec<&str>)> = vec![
+        (&a, "an idle reply cut after its first line", vec!["Notify(player)?", "Close(16)?", "DeliverAll?"]),
+        (&a, "a command's reply cut after its first line", vec!["Issue(0)?", "DeliverAll?", "Close(13)?", "DeliverAll?"]),
+        (&a, "a read error behind the first line of a command's reply", vec!["Issue(0)?", "DeliverAll?", "ReadErrAfter(13)?", "DeliverAll?"]),
+        (&a_list, "a list's reply cut after its first frame", vec!["Issue(0)?", "DeliverAll?", "DeliverAll?", "Issue(0)?", "DeliverAll?", "Close(22)?", "DeliverAll?"]),
+    ];
+    for (scn, what, script) in scripts {
+        let mut chooser = NameChooser { names: script.iter().map(|s| s.to_string()).collect(), cursor: 0, repeats: 0 };
+        let ta = match run_once(scn, &mut chooser) {
+            Ok(t) => t,
+            Err(_) => continue,
+        };
+        let died = ta.fault.is_some();
+        let b1 = run_b();
+        let same = format!("{:?}", b1.log) == format!("{:?}", b0.log);
+        let mut vs: Vec<Violation> = oracle(&b, &b1, &mut ExploreStats::default());
+        if !same {
+            vs.push(Violation::new(
+                format!("{id}/connection-depends-on-an-earlier-connection"),
+                format!("a session is observed differently after another connection of the same process ended with {what} (fault struck: {died}): first differing observation {:?} vs {:?}", b1.log.iter().zip(b0.log.iter()).find(|(x, y)| format!("{x:?}") != format!("{y:?}")).map(|p| format!("{:?}", p.0)), b1.log.iter().zip(b0.log.iter()).find(|(x, y)| format!("{x:?}") != format!("{y:?}")).map(|p| format!("{:?}", p.1))),
+                Value::Null,
+            ));
+        }
+        for mut v in vs {
+            v.what = format!("[two connections in one process; the first ended with {what}] {}", v.what);
+            v.case = json!({"engine": "loopmc", "independence_probe": what});
+            viol.push(v);
+        }
+    }
+    viol
+}
+
 pub fn run_plans(ctx: &Ctx, plans: Vec<Plan>, oracle: &Oracle, wall_cap: Duration, rule: &str, nontrivial_counters: &[&str]) -> (Coverage, Violations) {
+    {
+        let probe = independence_probe(ctx.id, oracle);
+        if !probe.by_sig.is_empty() {
+            let mut cov = Coverage::default();
+            cov.rule = "the independence probe failed (two connections in one process influence each other): the schedule exploration, which relies on independent executions, was not run".to_string();
+            cov.evaluations = 9;
+            std::process::exit(finish(ctx, cov, probe));
+        }
+    }
     let mut cov = Coverage::default();
     let mut viol = Violations::default();
     let mut per_scenario = Vec::new();
